@@ -253,8 +253,10 @@ def _is_normal_reduce_expr(expr: IndexLambda) -> bool:
             else:
                 return False
 
-    # every reduction variable must index an axis of the operand
-    return seen_redn_vars == set(expr.expr.bounds)
+    # every reduction variable must index an axis of the operand, and the
+    # surviving axes of the operand must be all the axes of the result
+    return (seen_redn_vars == set(expr.expr.bounds)
+            and i_out_dim == len(expr.shape))
 
 
 _SIMPLE_PYMBOLIC_BINARY_OP_MAP = {p.Sum:        BinaryOpType.ADD,
